@@ -165,12 +165,13 @@ Proof. intros g A B C. split; [apply labels_unique_b_sound; assumption | apply o
 (* Across whole histories (C10's combined machine: `reach idf s g` = any interleaving, from a state satisfying
    the invariant such as the fresh database, of transactions that neither create nor delete nodes, certified
    declaring / deleting transactions -- define_step and amend_step of steps created DURING the phase included --,
-   the metadata updates, and revert_optional_steps at a phase end): at EVERY decision every dispatched step
+   the metadata updates, revert_optional_steps at a phase end, a change of targets between director runs): at EVERY decision every dispatched step
    is needed above OPTIONAL and above the threshold, and a PENDING, attached, not deferred, safe, ready step with
    free resources is dispatched iff it is needed.  Partial in the sense of
-   C10_cached_equals_spec_at_every_decision_partial (certificates for node-creating transactions); a change of
-   the targets between director runs is covered separately (C11_target_change_keeps_flag_invariant, on the
-   scheduling snapshot alone); it is not a step of the machine. *)
+   C10_cached_equals_spec_at_every_decision_partial (certificates for node-creating transactions).  A new director
+   run with OTHER TARGETS (Scheduler.initialize + reconcile_targets) is a step of the machine too (reach_targets:
+   FlagInv proved, C11_target_change_keeps_flag_invariant; its two hypotheses on the snapshot are evaluated on
+   every real reconcile), so "resumed with a different target set than the previous run" is covered. *)
 Theorem C11_executed_iff_needed_at_every_decision_partial :
   forall idf, (forall a b, idf a = idf b -> a = b) ->
   forall s g, reach idf s g ->
